@@ -795,8 +795,12 @@ impl<'ps> PartitionKey<'ps> {
         let mut values_iter_offset = 0;
         for pk_index in prepared_metadata.pk_indexes.iter().copied() {
             // Find value matching current pk_index
-            let next_val = values_iter
-                .nth((pk_index.index - values_iter_offset) as usize)
+            // `checked_sub`: the indexes come from the server; a repeated index (which a
+            // well-behaved server never sends) must end in an error, not in an underflow.
+            let next_val = pk_index
+                .index
+                .checked_sub(values_iter_offset)
+                .and_then(|skip| values_iter.nth(skip as usize))
                 .ok_or_else(|| {
                     PartitionKeyExtractionError::NoPkIndexValue(
                         pk_index.index,
